@@ -111,6 +111,15 @@ def case_entry(case):
             s, sy = attempt(ureg.get_symbol, name + "gram")
             if s == "err" or sy != row["symbol"] + "g":
                 raise Violation(f"standard_symbol:{name}", f"get_symbol({name + 'gram'!r}) = {sy!r}, standard {row['symbol'] + 'g'!r}")
+            # the standard symbol of a prefixed unit is prefix symbol + unit symbol, also for units written without an explicit symbol
+            # (mbar, kbit, Mibit), before and after the prefixed unit has been used
+            for base, bsym in (("gram", "g"), ("bar", "bar"), ("bit", "bit"), ("byte", "B")):
+                for when in ("first", "after_use"):
+                    for tag, fn in (("get_symbol", lambda: ureg.get_symbol(name + base)), ("format~", lambda: format(ureg.Unit(name + base), "~"))):
+                        s, sy = attempt(fn)
+                        if s == "err" or sy != row["symbol"] + bsym:
+                            raise Violation(f"standard_symbol:{name}:prefixed:{tag}", f"{tag} of {name + base!r} ({when}) = {sy!r}, standard {row['symbol'] + bsym!r}")
+                    attempt(lambda: ureg.Quantity(1, name + base).to_root_units())
         return
     # canonical resolution of the spelling
     s, nm = attempt(ureg.get_name, sp)
